@@ -521,6 +521,60 @@ func ruleMagicDispatch(c *Check, p *Program, rule string) {
 			"every first word that is not a magic is rejected with ErrInvalidFrame",
 			fmt.Sprintf("rejected set has %d values = complement of the accepted ones", got.count()), fmt.Sprintf("rejected set = %s, expected complement of accepted magics %s", got, want))
 	}
+	// ValidFrameHeader recognises "not a frame" by identity with the sentinel (err == ErrInvalidFrame): where that is so,
+	// the rejecting returns hand back the sentinel itself, not an error that merely wraps it
+	if vf := p.Func("", "ValidFrameHeader"); vf != nil {
+		identity := false
+		allInstrs(vf, func(in ssa.Instruction) {
+			bo, ok := in.(*ssa.BinOp)
+			if !ok || (bo.Op != token.EQL && bo.Op != token.NEQ) {
+				return
+			}
+			for _, o := range []ssa.Value{bo.X, bo.Y} {
+				if mi, isMI := o.(*ssa.MakeInterface); isMI {
+					if k, isK := mi.X.(*ssa.Const); isK && k.Value != nil && k.Value.Kind() == constant.String && constant.StringVal(k.Value) == bad {
+						identity = true
+					}
+				}
+			}
+		})
+		if identity && len(rejectBlk) > 0 {
+			var bare func(v ssa.Value, depth int) bool
+			bare = func(v ssa.Value, depth int) bool {
+				if depth > 4 {
+					return false
+				}
+				switch x := v.(type) {
+				case *ssa.MakeInterface:
+					k, isK := x.X.(*ssa.Const)
+					return isK && k.Value != nil && k.Value.Kind() == constant.String && constant.StringVal(k.Value) == bad
+				case *ssa.Phi:
+					for _, e := range x.Edges {
+						// only the edges that can carry the sentinel matter: others are other errors
+						has := false
+						for _, s := range sentinelsIn(e) {
+							if s == bad {
+								has = true
+							}
+						}
+						if has && !bare(e, depth+1) {
+							return false
+						}
+					}
+					return true
+				}
+				return false
+			}
+			wrapped := ""
+			for _, b := range rejectBlk {
+				r := b.Instrs[len(b.Instrs)-1].(*ssa.Return)
+				if !bare(r.Results[0], 0) {
+					wrapped = p.InstrPos(r)
+				}
+			}
+			c.Cond(wrapped == "", rule, "ParseHeaders#reject-is-the-sentinel", pos, "a first word that is not a magic is reported with the sentinel ErrInvalidFrame itself: ValidFrameHeader tells 'not a frame' (false, nil) from a failure by identity with it", "every rejecting return yields the bare sentinel", "the return at "+wrapped+" wraps the sentinel: errors.Is still matches, but ValidFrameHeader compares by identity and reports (false, error) for those first words instead of (false, nil)")
+		}
+	}
 	// Legacy predicate agrees with the constant.
 	if il := p.Func("internal/lz4stream", "Frame.isLegacy"); il != nil {
 		ok := false
